@@ -258,16 +258,6 @@ Print Assumptions histories_stay_coherent.
    13) and keeps the third as conflict residue; every hypothesis of the theorems above holds of this world; the
    parent keeps its own 13 and takes the strand's 15 and 11; and with the plural ids pre-bound the same
    settlement under the plural policy fails at the shell and changes nothing. *)
-Definition ex_init : list (slot * value) := [(10, 1); (12, 1); (14, 1)].
-Definition ex_steps : list step :=
-  [ STick [((0, 0), mkPatch [10; 11] [11] [mkOp [10] [(11, Some 1)]])];
-    SFork (mkForkReq 0 0 0 1 [(1, 0)] true);
-    STick [((0, 0), mkPatch [12; 13] [13] [mkOp [12] [(13, Some 5)]])];
-    STick [((1, 0), mkPatch [14; 15] [15] [mkOp [14] [(15, Some 7)]])];
-    STick [((1, 0), mkPatch [10; 11; 13] [11] [mkOp [10] [(11, Some 2)]])];
-    STick [((1, 0), mkPatch [12; 13] [13] [mkOp [12] [(13, Some 9)]])] ].
-Definition ex_w : world := world_c ex_init ex_steps.
-
 Example c15_nonvacuous :
   exists s pfr pes ces w' out pfr',
     alookup 0 (rt_strands (fst ex_w)) = Some s /\ st_child s <> st_src s /\ wf_strands (fst ex_w) /\
